@@ -97,6 +97,30 @@ CHECKS = {
             "start of each history only. fix_stress (D5) not generated. Saved histories in regress/C10 are replayed "
             "first.",
             "DESIGN.md 4/C10"),
+    "C15": ("property-based testing (Hypothesis): synthetic skeleton rasters with pixel/Voronoi ground truth under the "
+            "symmetries of the square, padding and mirror_y; shipped images metamorphically",
+            "Generated-input exploration: rasterised, hole-filled, thinned Voronoi tissues whose stated image "
+            "preconditions are re-checked independently of forsys; after parsing + resampling (ne 3..9) + Frame "
+            "construction: cell count, cell-to-region matching, border flags, set of cell pairs with an internal "
+            "interface, junction count, mesh consistency, and equality of all of these across transformations.",
+            "Trusted: raster.py (Bresenham, hole filling, simple-point thinning, scipy.ndimage labelling). Covers "
+            "junction pixel patterns of thinned straight-line rasters plus the two shipped images.",
+            "DESIGN.md 4/C15"),
+    "C17": ("property-based testing (Hypothesis): independent numpy re-implementation + linearity / uniform / "
+            "normalisation / write-back laws",
+            "Generated-input exploration: float and 8-bit images, tissue interfaces placed by drawn rescale/offset and "
+            "hand-built polylines (axis-aligned, diagonal, fractional slope, curved), layers 0..3, integrate on/off, "
+            "normalisation None/average, repeated interfaces: window-median mean per interface; distinct-pixel band sum "
+            "/ polyline length; a*image => a*intensity; uniform image => equal; average => mean 1; gt written in order.",
+            "Trusted: the reference implementation in checks/c17.py; windows inside the image, positive coordinates.",
+            "DESIGN.md 4/C17"),
+    "C18": ("property-based testing (Hypothesis): algebraic laws + independent cell selection + eigen-decomposition",
+            "Generated-input exploration: drawn pressures/tensions (zero, negative), grid 1..12, radius 0.5..6: exact "
+            "symmetry, zero iff no cell centre in range, area-weighted -p*I for zero tensions, joint linearity, "
+            "grid^2 tensors, principal stresses = eigen-system of the tensor at each grid centre.",
+            "Trusted: numpy.linalg.eigvalsh; cells exactly on the radius are skipped. The tension term's weighting "
+            "is not specified by the statement and only enters through linearity.",
+            "DESIGN.md 4/C18"),
     "C16": ("property-based testing (Hypothesis): analytic opening angles -> expected flagged junctions and excluded "
             "interfaces; KKT certificate on the restricted system",
             "Generated-input exploration: limits in [0.5pi, pi] and the two defaults, static and velocity modes, "
